@@ -40,7 +40,7 @@ def gen_cases(tier: str, seed: int) -> list[dict]:
     rng = random.Random(seed)
     names = example_names()
     logics = QUICK_LOGICS if tier == 'quick' else LOGICS
-    n = 195 if tier == 'quick' else 3045
+    n = 201 if tier == 'quick' else 3051
     cases = []
     seen = set()
     # a fixed core: every option combination on a branching, a modal and a quantified argument
@@ -68,6 +68,10 @@ def gen_cases(tier: str, seed: int) -> list[dict]:
     for lg, a in core[:7]:
         if a in names:
             cases.append(dict(logic=lg, arg=a, opts=dict(OPTS[0]), step_cap=1, poke_after_finish=True))
+    # the first applications made through the public rule API (rule.target / rule.apply) instead of step()
+    for lg, a in core[:6]:
+        if a in names:
+            cases.append(dict(logic=lg, arg=a, opts=dict(OPTS[0]), direct_first=2))
     # stopped by the time limit (deterministic clock): finished, and the statistics still equal the observable counts
     for lg, a in core[:6]:
         if a in names:
